@@ -270,6 +270,10 @@ def _generate_mask(vertices, x, y):
             prev = str(e)
             raise Exception('attempted to convert array to genuine numpy array with known methods.  Please make a PR to prysm with a mechanism to convert this data type to real numpy. failed with '+prev)  # NOQA
 
+    if xx.ndim == 1:
+        # 1D x, y are the axes of the grid
+        xx, yy = truenp.meshgrid(xx, yy)
+
     xxyy = truenp.stack((xx, yy), axis=2)
     # use delaunay to fill from the vertices and produce a mask
     # a joggled (QJ) triangulation needs at least four points; a triangle is
